@@ -2440,10 +2440,12 @@ impl<'de> serde::de::Visitor<'de> for AnnotationStoreVisitor<'_> {
                 "@id" => {
                     let id: String = map.next_value()?;
                     if let Some(substore_index) =
-                        self.store.config.current_substore_path.iter().last()
+                        self.store.config.current_substore_path.iter().last().copied()
                     {
-                        if let Ok(substore) = self.store.get_mut(*substore_index) {
-                            substore.id = Some(id);
+                        if let Ok(substore) = self.store.get_mut(substore_index) {
+                            substore.id = Some(id.clone());
+                            //the substore was inserted before its ID was known: register the ID so it resolves
+                            self.store.substore_idmap.register(id, substore_index);
                         }
                     } else {
                         //normal situation (do not override the ID if this is a merge, first ID counts)
